@@ -184,8 +184,8 @@ fn exhaustive_patterns(st: &mut Stats, rng: &mut Rng, rows: usize, cols: usize) 
 pub fn run(ctx: &Ctx) -> Report {
     let nshape = 81u64; // (rows, cols) in [0,8]^2
     let nexh = 9u64;    // shapes 1..3 x 1..3
-    let nperm = ctx.vol(1500, 40_000);
-    let reps = ctx.vol(300, 8000);
+    let nperm = ctx.vol(6000, 400_000);
+    let reps = ctx.vol(1500, 80_000);
     let stats = par_run(ctx, TAG, nshape + nexh + nperm, |u, rng, st| {
         if u < nshape { for _ in 0..reps { history(st, rng, (u / 9) as usize, (u % 9) as usize); } }
         else if u < nshape + nexh { let v = (u - nshape) as usize; exhaustive_patterns(st, rng, v / 3 + 1, v % 3 + 1); }
